@@ -7,7 +7,7 @@ Every rule of a property reads functions as functions of their arguments and of 
   * a non-const static is state that survives the call; the E-PURE engine decides it where a property module asked for it; elsewhere the
     function is not a function of its arguments as far as this analysis knows: UNDECIDED, never a pass.
 A static whose initialiser reads nothing of the call (tables, constants) is not state."""
-from .tree import walk, pp, strip_casts
+from .tree import walk, pp, strip_casts, const_value
 
 
 import re
@@ -929,6 +929,58 @@ def sweep(fx, R):
             elif written - keys:
                 R.holds('H14', inst, 'same-value shortcut; everything re-initialised past it (%s) is written by no other method' % ', '.join(sorted(written - keys)), fx.rel(x.get('loc') or f['loc']), 'E-STATE')
             break
+    # ---- H15: a member refreshed on demand under a pending flag ------------------------------------------------------------------
+    # `if (!upToDate_) { m_ = g(source_); upToDate_ = true; } ... use m_` in a query Q, with other methods marking the refresh pending.  A method W that stores m_ directly (it knows the right value for
+    # the problem it just solved) without touching the flag leaves a pending refresh armed: the next Q overwrites W's value with g(source_), computed from what the method that armed the flag left
+    for f in sorted(fns, key=lambda f: f['q']):
+        cls = f.get('cls')
+        if not cls or f.get('ctor') or f.get('body') is None:
+            continue
+        for x in walk(f['body']):
+            if not (isinstance(x, dict) and x.get('k') == 'If' and x.get('t') is not None):
+                continue
+            c_ = strip_casts(x['c'])
+            neg = False
+            while c_.get('k') in ('Un', 'Paren'):
+                if c_.get('k') == 'Un':
+                    if c_.get('op') != '!':
+                        break
+                    neg = not neg
+                c_ = strip_casts(c_['e'])
+            if c_.get('k') in ('Bin', 'Op') and c_.get('op') in ('==', '!='):
+                sides = (c_['l'], c_['r']) if c_.get('k') == 'Bin' else tuple(c_.get('args', [])[:2])
+                lit = [const_value(s_) for s_ in sides]
+                memb = [strip_casts(s_) for s_ in sides if const_value(s_) is None]
+                if len(memb) != 1 or not any(isinstance(v_, bool) or v_ in (0, 1) for v_ in lit if v_ is not None):
+                    continue
+                v_ = bool([v_ for v_ in lit if v_ is not None][0])
+                neg = neg != ((c_['op'] == '==') != v_)
+                c_ = memb[0]
+            if not (c_.get('k') == 'Member' and c_.get('field') and c_.get('cls') == cls and (c_.get('t') or {}).get('s', '').replace('const ', '') in ('bool', '_Bool')):
+                continue
+            flag = c_['name']
+            pending = not neg                      # value of the flag for which the refresh runs
+            st_ = stores_in(x['t'])
+            clears = [r_ for (bm, r_) in st_ if bm.get('cls') == cls and bm['name'] == flag and const_value(r_) is not None and bool(const_value(r_)) != pending]
+            refreshed = sorted({bm['name'] for (bm, _) in st_ if bm.get('cls') == cls and bm['name'] != flag})
+            if not clears or not refreshed or any(isinstance(y, dict) and y.get('k') == 'Return' for y in walk(x['t'])):
+                continue
+            armers = sorted(g['q'] for g in fx.functions.values() if g.get('cls') == cls and g.get('body') is not None and not g.get('ctor') and g['q'] != f['q']
+                            and any(bm.get('cls') == cls and bm['name'] == flag and const_value(r_) is not None and bool(const_value(r_)) == pending for (bm, r_) in stores_in(g['body'])))
+            if not armers:
+                continue
+            for m_ in refreshed:
+                inst = '%s:refresh-on-demand:%s' % (f['q'].split('(')[0], m_)
+                direct = sorted(w_ for w_ in all_writers.get((cls, m_), ()) if w_ != f['q'] and (cls, flag) not in writes_of.get(w_, ()))
+                if direct:
+                    R.violated('H15', inst, '%s() refreshes `%s` on demand when `%s` is %s (`if (%s)`), and %s arms that flag.  %s stores `%s` itself - the value for the problem it has just solved - and leaves the flag as it '
+                               'is: after %s then %s, the next %s() finds the refresh still pending and overwrites `%s` with the value rebuilt from what %s left, i.e. the answer to an EARLIER problem.  The result '
+                               'depends on the sequence of calls, not on the current problem alone' % (
+                                   f['name'], m_, flag, str(pending).lower(), pp(x['c'])[:60], ', '.join(a_.split('(')[0].split('::')[-1] + '()' for a_ in armers[:3]), direct[0].split('(')[0].split('::')[-1] + '()', m_,
+                                   armers[0].split('(')[0].split('::')[-1] + '()', direct[0].split('(')[0].split('::')[-1] + '()', f['name'], m_, armers[0].split('(')[0].split('::')[-1] + '()'),
+                               fx.rel(x.get('loc') or f['loc']), 'E-STATE')
+                else:
+                    R.holds('H15', inst, '`%s` refreshed on demand under `%s`; every other method that stores it also sets the flag' % (m_, flag), fx.rel(x.get('loc') or f['loc']), 'E-STATE')
     # ---- H2: single precision inside a double computation -----------------------------------------------------------------
     prec = PRECISION.get(getattr(R, 'prop', None))
     if prec is not None:
